@@ -116,6 +116,10 @@ func convertSliceOrArray(rv reflect.Value, rt reflect.Type) (reflect.Value, erro
 		value = reflect.MakeSlice(rt, rv.Len(), rv.Len())
 	} else {
 		// make array
+		if rv.Len() > rt.Len() {
+			// more elements than the array holds
+			return rv, errInvalidTypeConversion
+		}
 		value = reflect.New(rt).Elem()
 	}
 
